@@ -44,3 +44,45 @@ func NewTimer(d Duration) *Timer            { return time.NewTimer(d) }
 func Date(y int, m Month, d, h, mi, s, ns int, loc *Location) Time {
 	return time.Date(y, m, d, h, mi, s, ns, loc)
 }
+
+// ---- the rest of package time, unchanged (a changed tree may use any of it) -------------
+
+type (
+	Weekday    = time.Weekday
+	ParseError = time.ParseError
+)
+
+const (
+	January   = time.January
+	February  = time.February
+	March     = time.March
+	April     = time.April
+	May       = time.May
+	June      = time.June
+	July      = time.July
+	August    = time.August
+	September = time.September
+	October   = time.October
+	November  = time.November
+	December  = time.December
+
+	RFC1123  = time.RFC1123
+	RFC3339  = time.RFC3339
+	RFC822   = time.RFC822
+	ANSIC    = time.ANSIC
+	UnixDate = time.UnixDate
+)
+
+var Local = time.Local
+
+func Tick(d Duration) <-chan Time                 { return time.Tick(d) }
+func NewTicker(d Duration) *Ticker                { return time.NewTicker(d) }
+func ParseDuration(s string) (Duration, error)    { return time.ParseDuration(s) }
+func Parse(layout, value string) (Time, error)    { return time.Parse(layout, value) }
+func UnixMilli(msec int64) Time                   { return time.UnixMilli(msec) }
+func UnixMicro(usec int64) Time                   { return time.UnixMicro(usec) }
+func FixedZone(name string, offset int) *Location { return time.FixedZone(name, offset) }
+func LoadLocation(name string) (*Location, error) { return time.LoadLocation(name) }
+func ParseInLocation(l, v string, loc *Location) (Time, error) {
+	return time.ParseInLocation(l, v, loc)
+}
